@@ -342,6 +342,11 @@ CASES = {
     "import": ('use "missing.oal";\nres / on get -> <{}>;\n', {}, 1),
     "type": ("res / on get -> <{} & num>;\n", {}, 1),
     "evaluation": ("res / on get -> <status=999, {}>;\n", {}, 1),
+    # several modules: the error sits in a module that is parsed before a clean one
+    "syntax-error-in-main-clean-import": ('use "m.oal" as m;\nres /items on get -> <m.item>; ;\n', {"m.oal": "let item = { 'id num };\n"}, 1),
+    "syntax-error-in-first-of-two-imports": ('use "a.oal" as a;\nuse "b.oal" as b;\nres / on get -> <a.t & b.u>;\n', {"a.oal": "let t = { 'x num }; }\n", "b.oal": "let u = { 'y str };\n"}, 1),
+    "type-error-in-import": ('use "m.oal" as m;\nres / on get -> <m.t>;\n', {"m.oal": "let t = {} & num;\n"}, 1),
+    "two-modules-ok": ('use "m.oal" as m;\nres / on get -> <m.t>;\n', {"m.oal": "let t = { 'k str };\n"}, 0),
 }
 SENTINEL = "SENTINEL: pre-existing target\n"
 
@@ -461,22 +466,24 @@ def real_cli_matrix():
         drv = build_wasmdrv()
         lsp = lspdrv.build_lsp()
         for name, (src, extra, want) in CASES.items():
-            if extra or "use " in src:
-                continue                      # the playground compiles a single text
-            w = run_wasm(drv, src, timeout=30)
-            detail[name]["playground"] = w["status"]
             cli_ok = detail[name]["rc"] == 0
-            if w["rc"] != 0 or w["status"] is None:
-                mism.append("%s: oal_wasm::compile dies (exit %s)" % (name, w["rc"]))
-            elif (w["status"] == "OK") != cli_ok:
-                mism.append("%s: the CLI %s but the playground entry point %s" % (name, "succeeds" if cli_ok else "fails", "succeeds" if w["status"] == "OK" else "fails"))
-            elif cli_ok:
-                fresh = run_cli(cli, {"main.oal": src}, workdir=os.path.join(rdir, name + ".fresh"))
-                if (fresh["target"] or "").strip() != w["body"].strip():
-                    mism.append("%s: the CLI and the playground entry point produce different documents" % name)
+            if not (extra or "use " in src):      # the playground compiles a single text
+                w = run_wasm(drv, src, timeout=30)
+                detail[name]["playground"] = w["status"]
+                if w["rc"] != 0 or w["status"] is None:
+                    mism.append("%s: oal_wasm::compile dies (exit %s)" % (name, w["rc"]))
+                elif (w["status"] == "OK") != cli_ok:
+                    mism.append("%s: the CLI %s but the playground entry point %s" % (name, "succeeds" if cli_ok else "fails", "succeeds" if w["status"] == "OK" else "fails"))
+                elif cli_ok:
+                    fresh = run_cli(cli, {"main.oal": src}, workdir=os.path.join(rdir, name + ".fresh"))
+                    if (fresh["target"] or "").strip() != w["body"].strip():
+                        mism.append("%s: the CLI and the playground entry point produce different documents" % name)
+            if name == "import":
+                continue                      # a missing import: the server has nothing to open
             d = os.path.join(rdir, name + ".lsp")
-            a = lspdrv.session(lsp, d, {"main.oal": src, "oal.toml": '[api]\nmain = "main.oal"\ntarget = "out.yaml"\n'},
-                               [("open", "main.oal", src), ("sync", "main.oal")], ("main.oal", {"line": 0, "character": 0}))
+            disk = {"main.oal": src, "oal.toml": '[api]\nmain = "main.oal"\ntarget = "out.yaml"\n'}
+            disk.update(extra)
+            a = lspdrv.session(lsp, d, disk, [("open", "main.oal", src), ("sync", "main.oal")], ("main.oal", {"line": 0, "character": 0}))
             ndiag = sum(len(v) for v in (a.get("diags") or {}).values())
             detail[name]["lsp_diagnostics"] = ndiag
             if not a.get("alive"):
